@@ -9,7 +9,7 @@ ASSUME ReadOK(TRUE)
 ASSUME ~ReadOK(FALSE)
 Init == /\ done = FALSE
         /\ (Emit = "all") =>
-             \A f \in {"json", "xml", "rdf", "provn"}, v \in 0..6 :
+             \A f \in {"json", "xml", "rdf", "provn"}, v \in 0..7 :
                 PrintT("TR " \o ToJson(<<[op |-> "IO", fmt |-> f, variant |-> v]>>))
 Next == done' = TRUE /\ ~done
 Spec == Init /\ [][Next]_done
